@@ -374,22 +374,23 @@ Fixpoint remap_from (i : Z) (v : Z) (l : list Z) : Z :=
 
 Definition zeros (n : Z) : list Z := repeat 0 (Z.to_nat n).
 
+(* the stored frame of (segment s, source j), or zeros when there is none *)
+Definition fetch (lazy : bool) (st : stored) (s j : Z) : list Z :=
+  match find_frame st s j with
+  | Some i => stored_frame lazy st i
+  | None => zeros (npix (s_cfg st))
+  end.
+
 (* one output plane: pixel -> channel, for requested source index j *)
 Definition read_plane (lazy : bool) (st : stored) (j : Z) : list (list Z) :=
   let c := s_cfg st in
   match ty c with
   | LABELMAP =>
-      let fr := match find_frame st 0 j with
-                | Some i => stored_frame lazy st i
-                | None => zeros (npix c)
-                end in
       map (fun v => let r := remap_from 1 v (segs c) in
-                    map (fun k => if r =? k then 1 else 0) (one_to (zlen (segs c)))) fr
+                    map (fun k => if r =? k then 1 else 0) (one_to (zlen (segs c))))
+          (fetch lazy st 0 j)
   | _ =>
-      let chans := map (fun s => match find_frame st s j with
-                                 | Some i => stored_frame lazy st i
-                                 | None => zeros (npix c)
-                                 end) (segs c) in
+      let chans := map (fun s => fetch lazy st s j) (segs c) in
       map (fun p => map (fun ch => nthz p ch 0) chans) (zrange (npix c))
   end.
 
@@ -439,6 +440,57 @@ Definition expected_pixel (c : cfg) (i : input) (j p k : Z) : Z :=
       | _, _ => v
       end
   end.
+
+(* the inputs of the documented domain that the constructor accepts *)
+Definition binary01 (v : Z) : bool := (v =? 0) || (v =? 1).
+
+Definition shape_ok (c : cfg) (i : input) : bool :=
+  match i with
+  | Label ps => forallb (fun pl => zlen pl =? npix c) ps
+  | Stack ps => forallb (fun pl => (zlen pl =? npix c) &&
+                                   forallb (fun ch => zlen ch =? zlen (segs c)) pl) ps
+  end.
+
+(* astype(uint) of a 0.0 / 1.0 float array *)
+Definition cast_in (dn : Z) (i : input) : input :=
+  match i with
+  | Label ps => Label (map (map (cast_float_bin dn)) ps)
+  | Stack ps => Stack (map (map (map (cast_float_bin dn))) ps)
+  end.
+
+(* integer arrays: label values are described segments (or 0); stacked
+   channels are binary and, for LABELMAP, do not overlap *)
+Definition int_values_ok (t : segtype) (sg : list Z) (i : input) : bool :=
+  match i with
+  | Label ps => forallb (fun v => memz v (0 :: sg)) (concat ps)
+  | Stack ps => forallb binary01 (all_pixels i) &&
+                match t with LABELMAP => negb (overlaps i) | _ => true end
+  end.
+
+Definition values_ok (c : cfg) (i : input) : bool :=
+  match dt c with
+  | DBad => false
+  | DInt => int_values_ok (ty c) (segs c) i
+  | DFloat =>
+      (0 <? den c) &&
+      (if is_stack i then true else list_eqb (segs c) [1]) &&   (* a float label array is one segment *)
+      match ty c with
+      | FRACTIONAL => forallb (fun k => (0 <=? k) && (k <=? den c)) (all_pixels i)
+      | t => forallb (fun k => (k =? 0) || (k =? den c)) (all_pixels i) &&
+             int_values_ok t (segs c) (cast_in (den c) i)
+      end
+  end.
+
+Definition valid (c : cfg) (i : input) : bool :=
+  seg_numbers_ok (ty c) (segs c) &&
+  (1 <=? npix c) && (1 <=? nsrc c) && (n_planes i =? nsrc c) &&
+  (rows c =? srows c) && (cols c =? scols c) &&
+  match ty c with
+  | BINARY => native c
+  | FRACTIONAL => (0 <=? maxfrac c) && (maxfrac c <=? 255)
+  | LABELMAP => true
+  end &&
+  shape_ok c i && values_ok c i.
 
 Definition expected (c : cfg) (i : input) : list (list (list Z)) :=
   map (fun j => map (fun p => map (fun k => expected_pixel c i j p k) (zrange (zlen (segs c))))
@@ -492,7 +544,7 @@ Definition spec_holds (c : cfg) (i : input) (perm : list Z) (byframe : bool) : b
 
 Definition run_seg_spec (c : cfg) (i : input) (perm req : list Z) (byframe assert_missing : bool) : val :=
   match run_seg c i perm req byframe assert_missing with
-  | VL l => VL (l ++ [VB (spec_holds c i perm byframe)])
+  | VL l => VL (l ++ [VB (spec_holds c i perm byframe); VB (valid c i)])
   | e => e
   end.
 
